@@ -1111,6 +1111,7 @@ func (m *Manager) updateTaskStatus(status *mesos.TaskStatus) {
 	case mesos.TASK_DROPPED, mesos.TASK_LOST, mesos.TASK_KILLED, mesos.TASK_FAILED, mesos.TASK_ERROR, mesos.TASK_FINISHED:
 
 		taskPtr.status = INACTIVE
+		taskPtr.gone = true
 		if parent := taskPtr.GetParent(); parent != nil {
 			parent.UpdateStatus(INACTIVE)
 		}
@@ -1184,9 +1185,11 @@ func (m *Manager) doKillTask(task *Task) error {
 func (m *Manager) doKillTasks(tasks Tasks) (killed Tasks, running Tasks, err error) {
 	// We assume all tasks are unlocked
 
-	// Build slice of tasks with status !ACTIVE
+	// Build slice of the tasks that are gone already (nothing to kill). A task that is not ACTIVE but
+	// has not been reported gone either was launched and is still staging: it must be killed as well,
+	// or it outlives its environment and nobody knows it.
 	inactiveTasks := tasks.Filtered(func(task *Task) bool {
-		return task.status != ACTIVE
+		return task.status != ACTIVE && task.gone
 	})
 
 	// Remove from the roster the tasks which are also in the inactiveTasks list to delete
@@ -1204,7 +1207,7 @@ func (m *Manager) doKillTasks(tasks Tasks) (killed Tasks, running Tasks, err err
 		})
 	})
 
-	for _, task := range tasks.Filtered(func(task *Task) bool { return task.status == ACTIVE }) {
+	for _, task := range tasks.Filtered(func(task *Task) bool { return task.status == ACTIVE || !task.gone }) {
 		e := m.doKillTask(task)
 		if e != nil {
 			log.WithError(e).
@@ -1361,6 +1364,7 @@ func (m *Manager) HandleExecutorFailed(e *event.ExecutorFailedEvent) map[uid.ID]
 			verifhook.Point("taskman.executorFailed.beforeStateUpdate")
 			m.updateTaskState(thisTask.taskId, "ERROR")
 			thisTask.status = INACTIVE
+			thisTask.gone = true
 			taskParent := thisTask.GetParent()
 			if taskParent != nil {
 				taskParent.UpdateStatus(INACTIVE)
@@ -1390,6 +1394,7 @@ func (m *Manager) HandleAgentFailed(e *event.AgentFailedEvent) map[uid.ID]struct
 			verifhook.Point("taskman.agentFailed.beforeStateUpdate")
 			m.updateTaskState(thisTask.taskId, "ERROR")
 			thisTask.status = INACTIVE
+			thisTask.gone = true
 			if taskParent := thisTask.GetParent(); taskParent != nil {
 				taskParent.UpdateStatus(INACTIVE)
 			}
